@@ -135,7 +135,7 @@ fn check_text(text: &str) -> Result<(), String> {
         let e = Error::new_from_span(custom(), sp);
         let (el, ec) = lc(text, b);
         let want_end = if ec == 1 && b > 0 { let q = (0..b).rev().find(|&q| text.is_char_boundary(q)).unwrap(); let (l2, c2) = lc(text, q); (l2, c2 + 1) } else if ec == 1 { (1, 2) } else { (el, ec) };
-        if e.line_col != LineColLocation::Span(lc(text, a), want_end) || e.location != InputLocation::Span((a, b)) { return Err(format!("Error::new_from_span({},{}) in {:?}: line_col {:?}, expected {:?}", a, b, text, e.line_col, (lc(text, a), want_end))); }
+        if e.line_col != LineColLocation::Span(lc(text, a), want_end) || e.location != InputLocation::Span((a, b)) { return Err(format!("Error::new_from_span({},{}) in {:?}: location {:?} line_col {:?}, expected Span(({}, {})) and {:?}", a, b, text, e.location, e.line_col, a, b, (lc(text, a), want_end))); }
         let (l, c) = lc(text, a);
         check_render(text, &format!("error over span {}..{}", a, b), &e, l, c, false)?;
         // the displayed start line: the first line the span touches ("" when it touches none), terminators visible when the span
